@@ -406,7 +406,14 @@ def ulam_rule(run, repo, F):
             states = [sc.atom(f's{k}') for k in range(nrow // 2)]
             sc.inputs = (tr, states)
             return sc.call(entry, tr, states, 100)
-        for ch, sc, res, exc in l2.explore(repo, body, typed=False):
+        try:
+            paths_ = l2.explore(repo, body, typed=False)
+        except AnalysisError as ae_:
+            if getattr(ae_, 'scenario', None) is not None:
+                l2rules.dropped_remainder_findings(run, 'C12', 'D4', repo, ae_.scenario, scen, {'data_driven.ulam'}, what='the transitions')
+            raise
+        for ch, sc, res, exc in paths_:
+            l2rules.dropped_remainder_findings(run, 'C12', 'D4', repo, sc, scen, {'data_driven.ulam'}, what='the transitions')
             l2rules.lost_update_obligations(run, 'C12', 'D4', repo, sc, scen, {'data_driven.ulam'})
             if exc is not None:
                 run.oblige('D4', (entry, scen), False)
